@@ -31,13 +31,25 @@ def main():
         rc1, out1 = sh("cargo test --offline 2>&1", cwd=wt)
         suite_ok = (rc1 == 0)
         rcb, outb = sh("cargo build --offline --no-default-features 2>&1 | tail -1", cwd=wt)
-        shutil.copy(os.path.join(src, "demo.rs"), os.path.join(wt, "tests", "demo.rs"))
-        rc2, out2 = sh("cargo test --offline --test demo 2>&1", cwd=wt)
-        demo_fails_with = rc2 != 0
-        sh("git checkout -- src", cwd=wt)
-        rc3, out3 = sh("cargo test --offline --test demo 2>&1", cwd=wt)
-        demo_passes_without = rc3 == 0
-        sh("rm -f tests/demo.rs", cwd=wt)
+        if "--static" in sys.argv:
+            # compile-time property: the demo program is rejected without the change and accepted with it
+            os.makedirs(os.path.join(wt, "examples"), exist_ok=True)
+            shutil.copy(os.path.join(src, "demo.rs"), os.path.join(wt, "examples", "demo.rs"))
+            rc2, out2 = sh("cargo build --offline --example demo 2>&1", cwd=wt)
+            sh("git checkout -- src", cwd=wt)
+            rc3, out3 = sh("cargo build --offline --example demo 2>&1", cwd=wt)
+            demo_fails_with = (rc2 == 0) and (rc3 != 0)      # "fails" = the misuse is accepted with the change
+            demo_passes_without = rc3 != 0                   # rejected on the clean tree
+            sh("rm -rf examples", cwd=wt)
+        else:
+            extra = " --no-default-features" if "--no-default-features" in sys.argv else ""
+            shutil.copy(os.path.join(src, "demo.rs"), os.path.join(wt, "tests", "demo.rs"))
+            rc2, out2 = sh("cargo test --offline%s --test demo 2>&1" % extra, cwd=wt)
+            demo_fails_with = rc2 != 0
+            sh("git checkout -- src", cwd=wt)
+            rc3, out3 = sh("cargo test --offline%s --test demo 2>&1" % extra, cwd=wt)
+            demo_passes_without = rc3 == 0
+            sh("rm -f tests/demo.rs", cwd=wt)
         meta["validated"] = dict(suite_passes_with_change=suite_ok, no_default_features_builds="Finished" in outb,
                                  demo_fails_with_change=demo_fails_with, demo_passes_without_change=demo_passes_without,
                                  how="scratch worktree %s: git apply; cargo test --offline; cargo build --no-default-features; cargo test --test demo (with / without the change)" % wt)
